@@ -355,6 +355,7 @@ def run_scenario(name, ch, stateful=False):
         _VIS = visible_lines()
     s = Sched(ch, [REMOTE_FILE], state_fn=state_fn if stateful else None, visible=_VIS if stateful else None)
 
+    s.on_timeout = lambda t: setattr(world.time, 'now', world.time.now + t)
     undo = patch_remote(s, world)
     try:
         env = R.Environment()
